@@ -32,12 +32,16 @@ def gen_table_case(r, kind, copy_faults=False):
     sh = Shadow(); ops = []
     uniq = [u for u in UNIQ_MENU if r.chance(1, 2)]
     multi = [m for m in MULTI_MENU if r.chance(1, 2)]
+    huge = (kind == 'huge')          # one history per run is forced across ALL segment boundaries: a single key, 470 rows
+    if huge: kind = 'big'
     if kind == 'big':
         uniq = [u for u in uniq if u != [1, 2]]
         if not multi: multi = [[2]]
+    if huge and [2] not in multi: multi.append([2])
     r.shuffle(uniq); r.shuffle(multi)
     target = {'small': r.range(4, 12), 'medium': r.range(30, 80), 'big': r.choice([70, 140, 200, 330, 460])}[kind]
-    nops = {'small': r.range(25, 60), 'medium': r.range(120, 220), 'big': target + r.range(120, 260)}[kind]
+    if huge: target = 470
+    nops = {'small': r.range(25, 60), 'medium': r.range(120, 220), 'big': 2 * target + r.range(160, 300)}[kind]
     fault_pct = {'small': 30, 'medium': 15, 'big': 4}[kind]
     pending = [('IU', u) for u in uniq] + [('IM', m) for m in multi]
     when = {}
@@ -46,6 +50,7 @@ def gen_table_case(r, kind, copy_faults=False):
         when[id(p)] = 0 if t == 0 else (r.range(1, nops - 1) if t == 1 else r.range(max(1, nops - 20), nops - 1))
     next_id = [0]
     nb = r.choice([1, 2, 6]) if kind == 'big' else 6          # few b values => huge duplicate groups in multi(b)
+    if huge: nb = 1
     nc = r.choice([1, 3, 8]) if kind == 'big' else 8
 
     def new_row(aim_conflict):
@@ -81,6 +86,15 @@ def gen_table_case(r, kind, copy_faults=False):
             return 'S %d %s : %d %d %d %d' % (r.choice([2, 4, 8, 6, 12, 14, 1]), r.choice(PREDS), *probe)
         return 'D'
 
+    def pick_pos(n, allow_end=False):
+        # aimed at the boundaries: first, last, (one past the last for inserts)
+        t = r.below(10)
+        if t == 0: return 0
+        if t == 1: return max(0, n - 1)
+        if t == 2 and allow_end: return n
+        return r.range(0, n) if allow_end else r.below(n)
+
+    phase = ['grow']      # big histories: grow to the target, shrink to a third, grow again (every threshold crossed up, down, up)
     for step in range(nops):
         for p in pending:
             if when[id(p)] == step:
@@ -91,20 +105,29 @@ def gen_table_case(r, kind, copy_faults=False):
                 else:
                     sh.multi.append(p[1])
         n = len(sh.rows)
-        growing = n < target and (kind != 'big' or step < target + 20)
+        if kind == 'big':
+            if phase[0] == 'grow' and n >= target: phase[0] = 'shrink' if len(phase) == 1 else 'done'
+            if phase[0] == 'shrink' and n <= target // 3: phase[0] = 'grow'; phase.append('again')
+            if phase[0] == 'shrink' and n > 0 and r.chance(1, 2):
+                k = r.range(1, min(n, 40)); pos = r.range(0, n - k)
+                ops.append('RR %d %d %d' % (f(), pos, k)); del sh.rows[pos:pos + k]
+                continue
+        growing = n < target and (kind != 'big' or phase[0] == 'grow')
         t = r.below(100)
         if kind == 'big' and growing and t < 85:
             t = 0
+        elif kind == 'big' and growing and 80 <= t < 92:
+            t = 95        # no bulk removals while a big history is growing: they used to keep it from ever reaching its target
         if n == 0 or t < (45 if growing else 22):
             row = new_row(r.chance(1, 6) and bool(sh.uniq))
             if r.chance(1, 5):
-                pos = r.range(0, n); ops.append('I %d %d %d %d %d %d' % (f(), pos, *row))
+                pos = pick_pos(n, True); ops.append('I %d %d %d %d %d %d' % (f(), pos, *row))
                 if not sh.conflict(row): sh.rows.insert(pos, row)
             else:
                 ops.append('A %d %d %d %d %d' % (f(), *row))
                 if not sh.conflict(row): sh.rows.append(row)
         elif t < 55:
-            pos = r.below(n); row = new_row(r.chance(1, 4) and bool(sh.uniq))
+            pos = pick_pos(n); row = new_row(r.chance(1, 4) and bool(sh.uniq))
             if r.chance(1, 4): row = list(sh.rows[pos]); row[r.range(1, 3)] = r.below(4)     # same unique key, other columns
             if len(sh.uniq) >= 2 and n >= 2 and r.chance(1, 3):
                 # aimed: keep the row's key on one unique index, collide with another row on a different one
@@ -124,7 +147,7 @@ def gen_table_case(r, kind, copy_faults=False):
             row = list(sh.rows[pos]); row[col] = v
             if row[col] == sh.rows[pos][col] or not sh.conflict(row, pos): sh.rows[pos] = row
         elif t < 80:
-            pos = r.below(n); keep = r.below(3)
+            pos = pick_pos(n); keep = r.below(3)
             ops.append('%s %d %d %d' % ('X' if r.chance(1, 4) else 'R', f(), pos, keep))
             if keep: del sh.rows[pos]
             else:
@@ -151,6 +174,11 @@ def gen_table_case(r, kind, copy_faults=False):
                 sh.rows = [x for x in sh.rows if evalp(p.split(), x)[0]]
         elif t == 90 and kind != 'big':
             ops.append('CL'); sh.rows = []
+        elif t == 92:
+            ops.append('RS %d %d' % (f(), r.choice([0, 1, n, n + 1, 2 * n + 3, 600])))
+        elif t == 93 and kind == 'small' and r.chance(1, 4):
+            p = r.choice(PREDS); ops.append('CS %d %s' % (f(), p))
+            sh.rows = [x for x in sh.rows if evalp(p.split(), x)[0]]; sh.uniq = []; sh.multi = []
         elif t == 91 and r.chance(1, 3):
             ops.append(r.choice(['DU', 'DM']))
             if ops[-1] == 'DU': sh.uniq = []
@@ -179,7 +207,8 @@ def gen_table_cases(ctx, scale):
     cases = []
     for _ in range(160 * scale): cases.append(gen_table_case(r, 'small'))
     for _ in range(36 * scale): cases.append(gen_table_case(r, 'medium'))
-    for _ in range(8 * scale): cases.append(gen_table_case(r, 'big'))
+    for _ in range(8 * scale - 1): cases.append(gen_table_case(r, 'big'))
+    cases.append(gen_table_case(r, 'huge'))
     return cases
 
 
@@ -252,30 +281,37 @@ def source_key(ctx, src, flags):
     files += sorted(glob.glob(os.path.join(ctx.repo, 'include', 'momo', '**', '*.h'), recursive=True))
     for f in files:
         h.update(f.encode()); h.update(open(f, 'rb').read())
-    h.update(repr((flags, ctx.tier)).encode())
+    h.update(repr(flags).encode())
     return h.hexdigest()
 
 
 def build_harnesses(ctx):
     """compile the five harness TUs in parallel; a binary is reused only if the source AND all momo headers are
-    byte-identical to the ones it was built from (so the tie is always to the current tree)"""
-    jobs = [('harness.cpp', 'harness%d' % v, ['-DVARIANT=%d' % v]) for v in VARIANTS]
-    jobs.append(('harness_idx.cpp', 'harness_idx', []))
+    byte-identical to the ones it was built from (so the tie is always to the current tree).
+    Thorough tier: ASan+UBSan for table variants 1 and 2 (custom traits / keepRowNumber / dynamic columns between them) and for the
+    index harness, built without debug info; variants 0 and 3 run unsanitized - five sanitized TUs cost > 8 min of compile time on
+    the shared machine and add no configuration the other three do not cover."""
+    import concurrent.futures as cf
+    thorough = ctx.tier == 'thorough'
+    jobs = [('harness.cpp', 'harness%d' % v, ['-DVARIANT=%d' % v], thorough and v in (1, 2)) for v in VARIANTS]
+    jobs.append(('harness_idx.cpp', 'harness_idx', [], thorough))
     res = {}; todo = []
-    san = '.san' if ctx.tier == 'thorough' else ''
-    for (src, exe, flags) in jobs:
-        key = source_key(ctx, src, flags); out = os.path.join(ctx.build, exe + san); kf = out + '.key'
+    for (src, exe, flags, san) in jobs:
+        fl = list(flags) + (['-g0'] if san else [])
+        key = source_key(ctx, src, (fl, san)); out = os.path.join(ctx.build, exe + ('.san' if san else '')); kf = out + '.key'
         if os.path.exists(out) and os.path.exists(kf) and open(kf).read() == key:
             res[exe] = out
         else:
-            todo.append((src, exe, flags, key, kf))
+            todo.append((src, exe, fl, san, key, kf))
     if todo:
-        built = ctx.cxx_many([(s, e, f) for (s, e, f, k, kf) in todo])
-        for (s, e, f, k, kf) in todo:
-            res[e] = built.get(e)
-            if built.get(e): open(kf, 'w').write(k)
-            elif os.path.exists(kf): os.remove(kf)
-    ctx.coverage['harness_rebuilt'] = [e for (s, e, f, k, kf) in todo]
+        with cf.ThreadPoolExecutor(max_workers=min(8, len(todo))) as ex:
+            futs = {ex.submit(ctx.cxx, s, e, f, san, 1500): (e, k, kf) for (s, e, f, san, k, kf) in todo}
+            for fu in cf.as_completed(futs):
+                (e, k, kf) = futs[fu]; out = fu.result(); res[e] = out
+                if out: open(kf, 'w').write(k)
+                elif os.path.exists(kf): os.remove(kf)
+    ctx.coverage['harness_rebuilt'] = [e for (s, e, f, san, k, kf) in todo]
+    ctx.coverage['sanitized'] = [e for (s, e, f, san) in jobs if san]
     return res
 
 
@@ -297,7 +333,7 @@ def replay(ctx, rp):
 
 def run(ctx):
     import idxgen
-    scale = 1 if ctx.quick() else 6
+    scale = 1 if ctx.quick() else 3
     ctx.trusted += ['extraction: ExtrOcamlBasic only (no Extract Constant), OCaml 4.13.1; driver.ml parses/prints and folds digests',
                     'g++ 12 -std=c++17; harness_idx.cpp reaches DataIndexes / UniqueHash / MultiHash via #define private public',
                     'HashSet::Insert/Remove/Find, HashMultiMap::Add/Remove/InsertKey and Array are taken as their abstract set/list '
@@ -332,7 +368,7 @@ def run(ctx):
         if exe is None: continue
         lines, err = run_resilient(ctx, exe, tcases, 'table-v%d' % v)
         ctx.evaluations += len(tcases)
-        ctx.coverage.setdefault('harness_stats', []).append(err.strip().splitlines()[-1][-200:] if err.strip() else '')
+        ctx.coverage.setdefault('harness_stats', []).append(err.strip().splitlines()[-1][-900:] if err.strip() else '')
         bad = oracle_scan(ctx, 'harness%d' % v, tcases, lines)
         for b in bad: all_bad.append(('harness%d' % v, exe) + b)
         for c, o in zip(tcases, lines):
@@ -369,9 +405,46 @@ def run(ctx):
         ctx.violation(what, rp, found_input=True)
     for c in (tcases[:2] + icases[:3]):
         ctx.add_sample(c[:400])
-    ctx.coverage['input_distribution'] = {'table_histories': len(tcases), 'variants': len(VARIANTS), 'index_scripts': len(icases),
-                                          'table_ops': sum(c.count('|') for c in tcases)}
+    ctx.coverage['input_distribution'] = measure(tcases, icases, ctx.coverage.get('harness_stats', []), ctx.coverage.get('harness_idx_stats', ''))
+    # the configurations the four builds claim (static_asserts in harness.cpp make the claim true at compile time)
+    want = {0: 'dynamic=0 keepRowNumber=0 selectEqualityMaxCount=6', 1: 'dynamic=0 keepRowNumber=1 selectEqualityMaxCount=1',
+            2: 'dynamic=1 keepRowNumber=0 selectEqualityMaxCount=2 checkVersion=0', 3: 'dynamic=1 keepRowNumber=1 selectEqualityMaxCount=6'}
+    stats = ctx.coverage.get('harness_stats', [])
+    cfg_bad = [v for v in VARIANTS if v < len(stats) and want[v] not in stats[v]]
+    idx_stats = ctx.coverage.get('harness_idx_stats', '')
+    if exes.get('harness_idx') is not None and 'BucketOpen2N2' not in idx_stats: cfg_bad.append('harness_idx bucket class: ' + idx_stats[-200:])
+    ctx.stage('configurations', not cfg_bad, 'unexpected configuration: %s' % cfg_bad if cfg_bad else '')
     return ctx.finish(rule=RULE)
+
+
+def measure(tcases, icases, hstats, istats):
+    """what this run really exercised: op histogram, boundary positions, index subsets and creation times, fault-flagged ops,
+    and the events the harnesses counted (refusals, injected faults, largest multi-hash group, segment-boundary crossings)"""
+    ops = {}; bound = {'insert_at_0': 0, 'remove_first': 0, 'range_empty': 0, 'assign_empty': 0, 'reserve_zero': 0}
+    faults = 0; idx_sets = {}; idx_time = {'before_data': 0, 'during': 0, 'after_most_data': 0}
+    for c in tcases:
+        parts = c.split(' | ')[1:]; n = 0; made = []
+        for i, o in enumerate(parts):
+            w = o.split(); ops[w[0]] = ops.get(w[0], 0) + 1
+            if len(w) > 1 and w[0] in ('A', 'I', 'U', 'C', 'R', 'X', 'RR', 'RP', 'AS', 'CP', 'CF', 'CS', 'RS') and w[1] == '1': faults += 1
+            if w[0] == 'I' and w[2] == '0': bound['insert_at_0'] += 1
+            if w[0] in ('IU', 'IM'):
+                made.append(o); idx_time['before_data' if i < 8 else ('after_most_data' if i > len(parts) - 30 else 'during')] += 1
+            if w[0] == 'RR' and w[3] == '0': bound['range_empty'] += 1
+            if w[0] == 'AS' and len(w) == 2: bound['assign_empty'] += 1
+            if w[0] in ('R', 'X') and w[2] == '0': bound['remove_first'] += 1
+            if w[0] == 'RS' and w[2] == '0': bound['reserve_zero'] += 1
+        key = ','.join(sorted(set(made))) or '(none)'; idx_sets[key] = idx_sets.get(key, 0) + 1
+    iops = {}
+    for c in icases:
+        for o in c.split(' | ')[1:]:
+            w = o.split()[0]; iops[w] = iops.get(w, 0) + 1
+    traits = {}
+    for c in icases: traits[c.split()[1]] = traits.get(c.split()[1], 0) + 1
+    return {'table_histories': len(tcases), 'table_ops_histogram': ops, 'fault_flagged_table_ops': faults, 'boundary_arguments': bound,
+            'distinct_index_subsets': len(idx_sets), 'index_creation_time': idx_time,
+            'index_scripts': len(icases), 'index_script_ops_histogram': iops, 'index_scripts_per_hash_traits': traits,
+            'measured_by_harness': hstats, 'measured_by_harness_idx': istats}
 
 
 def first_diff(a, b):
